@@ -255,6 +255,19 @@ class Specs:
                     out.append(Pair("E-sat", "saturating_" + X, L, ps, vty, a, b))
             # plain operation, where one exists without a policy prefix, wraps like overflowing_X.0
             # only when overflow cannot happen: not registered here.
+        # saturating rounding: the bound on the value's side (a negative value can only overflow downward)
+        ps1 = "a0: %s" % L
+        # ceil can only overflow upward (its result is >= the value), floor only downward; round and
+        # round_ties_to_even saturate to the bound on the value's side
+        for X, side in (("ceil", "max"), ("floor", "min"), ("round", "sign"), ("round_ties_to_even", "sign")):
+            if ("saturating_" + X) in methods and ("overflowing_" + X) in methods:
+                if side == "sign":
+                    b = ("{ let (v, o) = <%s>::overflowing_%s(a0); if !o { v } else if a0.to_bits() > 0 "
+                         "{ <%s>::max_value() } else { <%s>::min_value() } }" % (L, X, L, L))
+                else:
+                    bound = "min_value" if (side == "min") else "max_value"
+                    b = "{ let (v, o) = <%s>::overflowing_%s(a0); if o { <%s>::%s() } else { v } }" % (L, X, L, bound)
+                out.append(Pair("E-sat", "saturating_" + X, L, ps1, L, "<%s>::saturating_%s(a0)" % (L, X), b))
         # signed saturating_sub / neg / abs: side follows from the operands' signs
         if lay.signed:
             ps = "a0: %s, a1: %s" % (L, L)
@@ -394,10 +407,29 @@ class Specs:
         out.append(Pair("E-div", "wrapping_div", L, ps, "Option<%s>" % L,
                         "{ if a1.to_bits() == 0 { return None; } Some(a0.wrapping_div(a1)) }",
                         "{ if a1.to_bits() == 0 { return None; } Some(%s(%s as %s)) }" % (fb, q, ity)))
-        fits = "(q as %s as %s) != q" % (ity, W)
+        # "q does not fit": for signed types stated as "the discarded high half is not the sign extension of the
+        # low half", for unsigned as "the high half is not zero" -- both obviously exact range tests
+        if lay.signed:
+            fits = "(q >> %d) != (if (q as %s) < 0 { -1 } else { 0 })" % (n, ity)
+        else:
+            fits = "(q as %s as %s) != q" % (ity, W)
         out.append(Pair("E-div", "overflowing_div", L, ps, "Option<(%s, bool)>" % L,
                         "{ if a1.to_bits() == 0 { return None; } Some(a0.overflowing_div(a1)) }",
                         "{ if a1.to_bits() == 0 { return None; } let q = %s; Some((%s(q as %s), %s)) }" % (q, fb, ity, fits)))
+        # Euclidean quotient: the ratio of the values is the ratio of the bit patterns, so
+        # q = bits(a).div_euclid(bits(b)) as integers, result = q * 2^F, all exact in the double-width type
+        qe = "((a0.to_bits() as %s).div_euclid(a1.to_bits() as %s))" % (W, W)
+        fits_e = "((r >> %d) != q) || ((r as %s as %s) != r)" % (f, ity, W)
+        out.append(Pair("E-div", "wrapping_div_euclid", L, ps, "Option<%s>" % L,
+                        "{ if a1.to_bits() == 0 { return None; } Some(a0.wrapping_div_euclid(a1)) }",
+                        "{ if a1.to_bits() == 0 { return None; } let q = %s; Some(%s((q << %d) as %s)) }" % (qe, fb, f, ity)))
+        out.append(Pair("E-div", "overflowing_div_euclid", L, ps, "Option<(%s, bool)>" % L,
+                        "{ if a1.to_bits() == 0 { return None; } Some(a0.overflowing_div_euclid(a1)) }",
+                        "{ if a1.to_bits() == 0 { return None; } let q = %s; let r = q << %d; Some((%s(r as %s), %s)) }"
+                        % (qe, f, fb, ity, fits_e)))
+        out.append(Pair("E-div", "checked_div_euclid", L, ps, "Option<%s>" % L, "a0.checked_div_euclid(a1)",
+                        "{ if a1.to_bits() == 0 { return None; } let q = %s; let r = q << %d; if %s { None } else { Some(%s(r as %s)) } }"
+                        % (qe, f, fits_e, fb, ity)))
         # multiplication: exact product in the double-width type, shifted toward minus infinity
         p = "(((a0.to_bits() as %s).wrapping_mul(a1.to_bits() as %s)) >> %d)" % (W, W, f)
         out.append(Pair("E-mul", "wrapping_mul", L, ps, L, "a0.wrapping_mul(a1)", "%s(%s as %s)" % (fb, p, ity)))
